@@ -454,3 +454,34 @@ def nested_expected(q, history, live):
             if pkey in live and matches(q.child, live[pkey]):
                 out.update(k for k in g[1:] if k in live)
     return out
+
+
+def gen_skip_stress(rng):
+    """Trees of frequent plain Term leaves: long multi-block posting lists on every side, so that the
+    block-skipping paths of the binary matchers (skip_to_quality of And/Or/AndMaybe/Require) are driven hard."""
+    from whoosh import query
+
+    def term():
+        f = rng.choice(["t", "t", "t", "u"])
+        t = query.Term(f, rng.choice(VOCAB[:5]))
+        if rng.random() < 0.3:
+            t = t.with_boost(rng.choice([0.5, 2.0, 3.0]))
+        return t
+
+    def node(depth):
+        if depth == 0 or rng.random() < 0.35:
+            return term()
+        r = rng.random()
+        if r < 0.4:
+            return query.And([node(depth - 1) for _ in range(rng.randint(2, 3))])
+        if r < 0.65:
+            return query.Or([node(depth - 1) for _ in range(rng.choice([2, 2, 3]))], boost=rng.choice([1.0, 1.0, 3.0]))
+        if r < 0.8:
+            return query.AndMaybe(node(depth - 1), node(depth - 1))
+        if r < 0.9:
+            return query.Require(node(depth - 1), node(depth - 1))
+        return query.AndNot(node(depth - 1), term())
+    q = node(rng.choice([1, 2, 2]))
+    if isinstance(q, query.Term):
+        q = query.And([q, term()])
+    return q
